@@ -63,7 +63,7 @@ PROPS = {
 PROPS.update({
     "C03": {
         "needs": ["harness", "cli", "py"],
-        "parts": [ktmc("C03"), lambda tier: __import__("hist").c03_cli(tier)],
+        "parts": [ktmc("C03"), lambda tier: __import__("hist").c03_cli(tier), lambda tier: __import__("hist").c_env_cpus(tier, ['header'])],
         "rule": "every k in 1..=10 with all 4^k codes: column count = closed form, every canonical code maps to its "
                 "rank in the sorted model index and the inverse map returns it; header through get_header (k<=8) and "
                 "through both writer paths x 3 delimiters (k<=6); header line of `kmertools comp oligo -H` for k 3..=7 x 3 presets x "
@@ -97,7 +97,7 @@ PROPS.update({
     "C08": {
         "technique": "bounded-exhaustive enumeration of inputs and configurations against a reference model, plus stateless controlled-scheduler exploration of the items of the data-parallel batch path",
         "needs": ["harness", "cli"],
-        "parts": [ktmc("C08"), ktmc("C08batch"), lambda tier: __import__("hist").c_env_threads(tier, ["cov"])],
+        "parts": [ktmc("C08"), ktmc("C08batch"), lambda tier: __import__("hist").c_env_threads(tier, ["cov"]), lambda tier: __import__("hist").c_env_cpus(tier, ['cov'])],
         "rule": "per-record histogram routine on every string over {A,C,G,T,N} up to the stated length x k 1..=3 x 6 "
                 "bin shapes with synthetic tables (multiplicities at the bin edges, 10^6, u32::MAX, absent); the "
                 "whole pipeline on every list of <= 2 (thorough 3) short records x k x bin shapes x norm/raw x "
@@ -110,7 +110,8 @@ PROPS.update({
     },
     "C11": {
         "technique": "bounded-exhaustive enumeration of inputs and configurations against a reference model, plus stateless controlled-scheduler exploration of the items of the data-parallel batch path",
-        "parts": [ktmc("C11"), ktmc("C11batch")],
+        "needs": ["harness", "cli"],
+        "parts": [ktmc("C11"), ktmc("C11batch"), lambda tier: __import__("hist").c_env_cpus(tier, ['cgr'])],
         "rule": "every string over {A,C,G,T} up to the stated length and every mixed-case/U string up to length 5-6 x "
                 "7 square sizes, bit-exact against an exact dyadic-rational model; every string with a bad byte over "
                 "{A,C,G,T,N,x} and every byte value outside the ten letters in short contexts must be refused; long "
@@ -121,7 +122,8 @@ PROPS.update({
     },
     "C12": {
         "technique": "bounded-exhaustive enumeration of inputs and configurations against a reference model, plus stateless controlled-scheduler exploration of the items of the data-parallel batch path",
-        "parts": [ktmc("C12"), ktmc("C12batch")],
+        "needs": ["harness", "cli"],
+        "parts": [ktmc("C12"), ktmc("C12batch"), lambda tier: __import__("hist").c_env_cpus(tier, ['kcgr'])],
         "rule": "k 1..=7 x 5 square sizes x norm/raw: every string over {A,C,G,T,N} up to the stated length (k<=3) or "
                 "a structured family (k 4..=7): one triple per canonical column in rank order, coordinates bit-exact "
                 "= chaos-game end point of the column's k-mer text, frequency identical to the oligo vector and to "
@@ -167,7 +169,7 @@ PROPS.update({
         "engine": "ktmc-sched",
         "technique": "stateless controlled-scheduler exploration of worker interleavings (iterative preemption bounding) plus exhaustive configuration lattice",
         "needs": ["harness", "cli"],
-        "parts": [ktmc("C05sched"), ktmc("C05cfg"), ktmc("C04batch"), lambda tier: __import__("hist").c_env_threads(tier, ["oligo"])],
+        "parts": [ktmc("C05sched"), ktmc("C05cfg"), ktmc("C04batch"), lambda tier: __import__("hist").c_env_threads(tier, ["oligo"]), lambda tier: __import__("hist").c_env_cpus(tier, ['oligo'])],
         "rule": "schedules: depth-first exploration by re-execution of every interleaving of the real mmap worker loop "
                 "(N=2 and the small N=3 case unbounded, larger N=3 and N=4 up to the stated preemption bound) over 2-6 "
                 "records with pairwise different rows, at the default and at small batch-memory limits; oracle per schedule: output bytes = rows in input order; observed record->worker assignments "
@@ -197,7 +199,7 @@ PROPS.update({
         "engine": "ktmc-sched",
         "technique": "stateless controlled-scheduler exploration of count/merge worker interleavings with phase-barrier state caching, plus exhaustive configuration enumeration",
         "needs": ["harness", "cli"],
-        "parts": [ktmc("C07sched"), ktmc("C07cfg"), lambda tier: __import__("hist").c_env_threads(tier, ["ctr"])],
+        "parts": [ktmc("C07sched"), ktmc("C07cfg"), lambda tier: __import__("hist").c_env_threads(tier, ["ctr"]), lambda tier: __import__("hist").c_env_cpus(tier, ['ctr'])],
         "rule": "schedules: every interleaving (up to the stated preemption bound) of the real count() workers - limit "
                 "check, reader mutex, record taken, every map operation, atomic additions, exit - for 2-3 workers and "
                 "2-4 records colliding on the same k-mers (same strand and opposite strands, with records that hold "
@@ -216,7 +218,8 @@ PROPS.update({
     "C10": {
         "engine": "ktmc-sched",
         "technique": "stateless controlled-scheduler exploration of the s2m / m2s worker interleavings plus exhaustive configuration enumeration",
-        "parts": [ktmc("C10sched"), ktmc("C10cfg")],
+        "needs": ["harness", "cli"],
+        "parts": [ktmc("C10sched"), ktmc("C10cfg"), lambda tier: __import__("hist").c_env_cpus(tier, ['s2m', 'm2s'])],
         "rule": "schedules: every interleaving (N=2 unbounded where feasible, N=3 preemption-bounded) of seq_to_min and "
                 "bin_sequences workers over 2-3 records sharing minimisers (m=2, w=0 and w=3); oracle per schedule: "
                 "s2m = one line per record with the model's runs (multiset of lines), m2s = exact inversion of the "
